@@ -26,7 +26,8 @@ def small_scope(max_rows, names=NAMES_CASE):
     slots = list(itertools.product(concepts, langs, cogs))
     q = {"entries": ["", "COGID"], "refs": ["cogid"], "items": ["taxa", "GLOSS", "cogid"],
          "iter": ["doculect", "concept", "cogid"], "dst": [("cogid", False), ("cogid", True)],
-         "paps": [("cogid", -1), ("cogid", 0)]}
+         "paps": [("cogid", -1), ("cogid", 0)], "attrs": ["taxa", "CONCEPTS", "cogid", "language"],
+         "kws": [("taxon", langs[0]), ("GLOSS", concepts[1])]}
     for n in range(1, max_rows + 1):
         for combo in itertools.product(slots, repeat=n):
             rows = [[ids[i], [l, c, g]] for i, (c, l, g) in enumerate(combo)]
